@@ -79,7 +79,7 @@ def rowsOf {A R ρ : Type} (row? : A → Option ρ) (h : History A R) : List ρ 
 /-- The environment that answers from a recorded interaction: its state is what is left of the
 recording; an action that is not the recorded one, or any action once the recording is used up, is
 a failure.  It does not mention the original environment. -/
-def replayEnv {A R : Type} [DecidableEq A] (t : History A R) : Env A R where
+@[reducible] def replayEnv {A R : Type} [DecidableEq A] (t : History A R) : Env A R where
   S := History A R
   init := t
   step := fun rest a =>
@@ -88,7 +88,7 @@ def replayEnv {A R : Type} [DecidableEq A] (t : History A R) : Env A R where
     | [] => none
 
 /-- `E` with a log of the interaction: answers exactly as `E` does. -/
-def tap {A R : Type} (E : Env A R) : Env A R where
+@[reducible] def tap {A R : Type} (E : Env A R) : Env A R where
   S := E.S × History A R
   init := (E.init, [])
   step := fun (s, log) a =>
@@ -187,7 +187,7 @@ def Action.row? {V C X ρ : Type} : Action V C X ρ → Option ρ
 /-- handle ↦ the opid the tap's closures captured for it (`call_opid` / `outer_iterator_opid`) -/
 abbrev HandleMap := List (Nat × Opid)
 
-def HandleMap.find? (m : HandleMap) (h : Nat) : Option Opid := (m.find? (·.1 == h)).map (·.2)
+def HandleMap.opid? (m : HandleMap) (h : Nat) : Option Opid := (List.find? (fun p => p.1 == h) m).map (·.2)
 
 structure TapState (V C X ρ S : Type) where
   inner : S
@@ -224,17 +224,17 @@ def recordStep {V C X ρ : Type} (trace : Trace V C X ρ) (handles : HandleMap) 
     let (trace', opid) := trace.record (.call f) none
     some (trace', handles ++ [(steps, opid)])
   | .pullOutput h =>
-    match handles.find? h with
+    match handles.opid? h with
     | some parent => some (recordResponse trace handles parent)
     | none => none
   | .yieldInto h c =>
-    match handles.find? h with
+    match handles.opid? h with
     | some parent =>
       let (trace', _) := trace.record (.yieldInto c) (some parent)   -- `.inspect` on the input
       some (recordResponse trace' handles parent)
     | none => none
   | .inputExhausted h =>
-    match handles.find? h with
+    match handles.opid? h with
     | some parent =>
       let (trace', _) := trace.record .inputIteratorExhausted (some parent)  -- end action (input)
       some (recordResponse trace' handles parent)
